@@ -94,7 +94,17 @@ LightContent   == {"empty", "valid", "fill32"}
 \* ---- the case record ---------------------------------------------------------------------------------
 Z == [ch |-> "na", net |-> "na", kind |-> "na", code |-> -1, n |-> -1, off |-> "exact", io |-> 0,
       sub |-> "na", sv |-> -1, pl |-> "na", pn |-> -1, cnt |-> -1, kc |-> "na", ksel |-> -1, kn |-> -1,
-      cc |-> "na", ver |-> -1, st |-> "fresh"]
+      cc |-> "na", ver |-> -1, st |-> "fresh", fu |-> "na"]
+
+\* ---- follow-up answers -----------------------------------------------------------------------------------
+\* A well-formed PING (request) or PONG (response) whose enr_seq is above the sequence number of the sender's
+\* record in the routing table (st = "seqhigh") makes the node ask that peer for its record (FINDNODES [0]) while
+\* it handles the input; the peer's answer to THAT request is a further input (seed C01-2).  fu = its class:
+\*  honest  NODES with the peer's own record        none   an empty TALKRESP          bare  the NODES code alone
+\*  garbage NODES followed by filler                emptylist  a well-formed NODES without records
+\*  wrongcode  a PONG                               badrecord  NODES with another node's record
+\*  trunc   the honest answer cut short             silent  no answer before the request times out
+FollowUps == {"honest", "none", "bare", "garbage", "emptylist", "wrongcode", "badrecord", "trunc", "silent"}
 
 OffClasses   == {"exact", "m1", "p1", "beyond", "zero"}
 InnerOff     == {"m1", "p1", "beyond", "decr", "zero"}
@@ -111,6 +121,7 @@ ReqPing(net) ==
   {[B EXCEPT !.n = k, !.sv = PtClientInfo, !.pl = "valid"] : k \in {FixPing - 1, FixPing}}        \* truncated to the fixed part
   \cup UNION {{[B EXCEPT !.sv = pt, !.pl = p.pl, !.pn = p.pn] : p \in PayloadShapes(pt)} : pt \in PTypes}
   \cup {[B EXCEPT !.sv = pt, !.pl = "valid", !.off = o] : pt \in PTypes, o \in BadOff}
+  \cup {[B EXCEPT !.sv = PtClientInfo, !.pl = "valid", !.st = "seqhigh", !.fu = f] : f \in FollowUps}
 ReqFindNodes(net) ==
   LET B == [Z EXCEPT !.ch = "req", !.net = net, !.kind = "findnodes", !.code = FINDNODES] IN
   {[B EXCEPT !.n = FixFindNodes - 1, !.cnt = 1, !.sub = "mid"], [B EXCEPT !.n = FixFindNodes + 1, !.cnt = 1, !.sub = "mid"],
@@ -159,7 +170,8 @@ RespPong ==
   LET B == [Z EXCEPT !.ch = "resp", !.kind = "pong", !.code = PONG] IN
   UNION {{[B EXCEPT !.net = net, !.n = k, !.sv = PtClientInfo, !.pl = "valid"] : k \in {FixPing - 1, FixPing}}
          \cup UNION {{[B EXCEPT !.net = net, !.sv = pt, !.pl = p.pl, !.pn = p.pn] : p \in PayloadShapes(pt)} : pt \in PTypes}
-         \cup {[B EXCEPT !.net = net, !.sv = PtClientInfo, !.pl = "valid", !.off = o] : o \in BadOff} : net \in Nets}
+         \cup {[B EXCEPT !.net = net, !.sv = PtClientInfo, !.pl = "valid", !.off = o] : o \in BadOff}
+         \cup {[B EXCEPT !.net = net, !.sv = PtClientInfo, !.pl = "valid", !.st = "seqhigh", !.fu = f] : f \in FollowUps} : net \in Nets}
 EnrClasses == {"valid", "wrongdist", "garbage", "empty", "self", "dup", "lowport", "big"}
 RespNodes ==
   LET B == [Z EXCEPT !.ch = "resp", !.kind = "nodes", !.code = NODES, !.net = "history"] IN
@@ -263,7 +275,7 @@ Facts(c) ==
    ksel |-> IF c.ch = "stream" /\ c.cc = "zeroitem" /\ c.net = "beacon" THEN 17 ELSE c.ksel,   \* the stream's items go under update-range keys
    kn |-> c.kn,
    sumlen |-> CASE c.st = "sum" -> 1000 [] c.st = "sumshort" -> 3 [] OTHER -> -1,
-   dec |-> Decodes(c), sub |-> c.sub,
+   dec |-> Decodes(c), sub |-> c.sub, fu |-> c.fu, seqhigh |-> c.st = "seqhigh",
    zl |-> c.net = "beacon" /\ ( (c.ksel = 17 /\ c.kc = "exact" /\ c.cc \in {"emptyvar", "zeroitem"})
                               \/ (c.ch = "stream" /\ c.kind = "offer" /\ c.cc = "zeroitem" /\ c.pl = "exact") )]
 
@@ -286,6 +298,8 @@ PanicsToday(f, D) ==
   \/ "NilGetter" \in D /\ f.ch = "lookup" /\ f.kind \in {"nw.bootstrap", "nw.finality", "nw.optimistic"}
   \* a light client update range with a zero-length item decodes (the item stays nil), passes validation and is serialised by the store
   \/ "ZeroLenUpdate" \in D /\ f.net = "beacon" /\ f.ksel = 17 /\ f.ch \in {"put", "pipe", "stream"} /\ f.zl
+  \* regression mutant (seed C01-2, not a deviation of today's code): the result of the nested record request is used unchecked
+  \/ "FollowUpDeref" \in D /\ f.kind \in {"ping", "pong"} /\ f.seqhigh /\ f.fu \notin {"na", "honest"}
 
 \* ---- reference dispatcher (I level): expected outcome class; "any" where the model does not commit -------
 ExpectReq(c) ==
